@@ -25,7 +25,7 @@ struct Pod { int key; int idx; };
 void generate(Rng& r, Workload& w, int tier) {
     int64_t threads = r.chance(1, 8) ? r.range(6, 8) : r.range(0, 5);   // 0..5 -> 1..6 threads, 6 -> 16, 7 -> 24, 8 -> 32
     w.cfg = {int64_t(r.below(2)), threads, int64_t(r.below(2)), r.range(0, 3), int64_t(r.below(2)),
-             r.chance(1, 8) ? 1 : 0, 0};
+             r.chance(1, 8) ? 1 : 0, int64_t(r.below(2))};
     int nmax = tier ? 96 : 64;
     int n;
     uint64_t k = r.below(10);
